@@ -406,7 +406,39 @@ def j7_output_space(ctx):
             ctx.ob("J7", "decode_into:reserved=worst-case", ok, "before decoding, exactly max_utf8_buffer_length_without_replacement(bytes.len()) is reserved on the output string", config=cfg)
         ctx.floor("J7", "decoding paths of decode_into", n, 1, config=cfg)
 
-RULES = [("A", a_audit), ("J2b", j2b_fallthrough), ("RD", rd_reader_total), ("J1", j1_peek_then_next), ("J1b", j1b_preconditions), ("J2", j2_flags), ("J3", j3_config), ("J4", j4_merging), ("J6", j6_just_filled), ("J7", j7_output_space)]
+def j8_skip_total(ctx):
+    """XmlReader::read_to_end says Ok only when the subtree really was skipped: the callers' `unreachable!()` /
+    end-name assertions after a skip rely on it.  An Ok exit must have seen every reader.read_to_end succeed, or have
+    found the matching End already in the lookahead, or (lookahead is an error) have unpacked that error with `?`."""
+    for cfg, F in ctx.facts.items():
+        b = ctx.body(F, "de::XmlReader::read_to_end", "J8")
+        if b is None:
+            continue
+        oks = 0
+        for p in ctx.paths(b):
+            r = ret_of(p)
+            if ends(p) != "ret" or r is None or describe_ret(r, 0)[0][:1] != ("Ok",):
+                continue
+            oks += 1
+            skips = [e for e in p if e[0] == "call" and name_is(e[2], "read_to_end") and not name_is(e[2], "XmlReader::read_to_end")]
+            def ok_of(c):
+                return any(e[0] == "switch" and e[2][0] == "discr" and strip_wrappers(e[2][1])[0] == "call" and strip_wrappers(e[2][1])[1] == c[1] and e[3] == 0 for e in p)
+            la = decision_on(p, lambda t: t[0] == "discr" and is_self_field(strip_wrappers(t[1]), "lookahead"))
+            if skips:
+                just = all(ok_of(c) for c in skips)
+                why = "skipped by the reader (%d call(s), all checked)" % len(skips) if just else "a reader.read_to_end result is dropped"
+            elif la == 1:
+                nx = [e for e in p if e[0] == "call" and name_is(e[2], "next_impl")]
+                just = bool(nx) and all(ok_of(c) for c in nx)
+                why = "lookahead holds an error: it must be unpacked (next_impl()?), found %s" % ("checked" if just else "dropped")
+            else:
+                just = any(e[0] == "switch" and call_is(e[2], "eq") and e[3] != 0 and has_subterm(e[2], lambda s: call_is(s, "BytesEnd::name")) for e in p)
+                why = "matching End already pre-read" if just else "nothing was skipped and no matching End was pre-read"
+            ctx.ob("J8", "XmlReader::read_to_end:Ok[lookahead=%s,skips=%d]" % ({0: "Ok", 1: "Err"}.get(la, "?"), len(skips)), just, "an Ok exit must be justified: " + why, config=cfg)
+        ctx.floor("J8", "Ok exits of XmlReader::read_to_end", oks, 4, config=cfg)
+
+
+RULES = [("A", a_audit), ("J2b", j2b_fallthrough), ("RD", rd_reader_total), ("J1", j1_peek_then_next), ("J1b", j1b_preconditions), ("J2", j2_flags), ("J3", j3_config), ("J4", j4_merging), ("J6", j6_just_filled), ("J7", j7_output_space), ("J8", j8_skip_total)]
 
 
 def THOROUGH_EXTRA(ctx):
